@@ -98,6 +98,7 @@ type instance struct {
 	up          bool
 	waitProc    chan struct{}
 	failedSince *time.Time
+	reloadOwed  bool
 	logger      types.Logger
 	options     *InstanceOptions
 	config      Config
@@ -352,6 +353,12 @@ func (i *instance) HAProxyUpdate(timer *utils.Timer) error {
 			i.logger.Error("haproxy failed to reload, first occurrence at %s", i.failedSince.Format("2006-01-02 15:04:05.999999 -0700 MST"))
 		}
 	}()
+	if updated && i.reloadOwed {
+		// nothing changed since the last update, but its reload failed:
+		// haproxy still runs the configuration from before that update
+		i.logger.Info("retrying the reload that failed")
+		updated = false
+	}
 	if updated {
 		if updater.cmdCnt > 0 {
 			if i.options.ValidateConfig {
@@ -390,12 +397,14 @@ func (i *instance) Reload(timer *utils.Timer) error {
 	err := i.reloadHAProxy()
 	timer.Tick("reload_haproxy")
 	if err != nil {
+		i.reloadOwed = true
 		i.updateSuccessful(false)
 		if i.options.TrackInstances {
 			i.conns.ReleaseLastInstance()
 		}
 		return fmt.Errorf("error reloading server: %w", err)
 	}
+	i.reloadOwed = false
 	i.up = true
 	i.updateSuccessful(true)
 	message := "haproxy successfully reloaded"
